@@ -1,5 +1,5 @@
 /-
-  C10 (round 7) — source tie of `Homogenization::run`'s throw, phase order and forward substitution, and of the
+  C10 (round 7, 9b) — source tie of `Homogenization::run`'s throw, phase order, forward substitution and gather store, and of the
   dimension guard of the GKF cluster finishers.
 
   `Gen/HomogenizationSites.lean` is rewritten from lib/gnu_gama/adj/homogenization.h and
@@ -60,6 +60,21 @@ theorem C10_homogenization_forward_site (nonz : Array K) (tab : Array Nat) (off 
           (fun (u : Array K) (t : Nat) =>
             u.setIfInBounds (i - 1 + t) (Gen.HomSites.fwdUpdate (u.getD (i - 1 + t) 0) (nonz.getD (b + t) 0) x)) w1)
       v := rfl
+
+/-- **the gather statement of a correlated block** (`T(i, perm[c]) += *b++;` after `T.set_zero()` since repo 6d0f7107;
+    `=` before): what the model's `Hom.gather1` stores at `T(i, perm[c])` is the REGENERATED store
+    `Gen.HomSites.gatherStore old a` (`old + a` in the current tree) of the coefficient `a` on the value `old` that is
+    there, every other cell of `T` is untouched, and `T` starts from zeros (`gatherZeroed`).  With `=` in the source the
+    table regenerates `gatherStore old a = a` and this theorem fails by name. -/
+theorem C10_homogenization_gather_site (i : Nat) (g : Hom.Gather K) (e : Nat × K) :
+    (∃ pc, (Hom.gather1 i g e).T =
+      g.T.modify (pc - 1) (fun col => col.setIfInBounds (i - 1) (Gen.HomSites.gatherStore (col.getD (i - 1) 0) e.2))) ∧
+    Gen.HomSites.gatherZeroed = true := by
+  refine ⟨?_, rfl⟩
+  unfold Hom.gather1 Gen.HomSites.gatherStore
+  by_cases h : g.perm.getD e.1 0 = 0
+  · simp only [h, if_true]; exact ⟨_, rfl⟩
+  · simp only [h, if_false]; exact ⟨_, rfl⟩
 
 end
 
